@@ -307,16 +307,16 @@ theorem initOne_spec {pi tiny : ℝ} (ht : 0 < tiny) {sh : Shape ℝ} {v : ℝ} 
   cases sh with
   | none => exact ⟨.p cv, by simp [initOne, hc, TP.placebo], trivial, rfl⟩
   | cc a b =>
-    exact ⟨.i (IT.new pi cv a b 1 true), by simp [initOne, hc], by simp [Matches, IT.new],
+    exact ⟨.i (IT.new pi cv a b 1 true), by simp [initOne, mkIT, hc, hin.1, hin.2], by simp [Matches, IT.new],
       IT_new_getOriginal pi cv a b hin.1 hin.2⟩
   | oo a b =>
-    exact ⟨.i (IT.new pi cv (a + tiny) (b - tiny) 1 true), by simp [initOne, hc], by simp [Matches, IT.new],
+    exact ⟨.i (IT.new pi cv (a + tiny) (b - tiny) 1 true), by simp [initOne, mkIT, hc, hin.1, hin.2], by simp [Matches, IT.new],
       IT_new_getOriginal pi cv (a + tiny) (b - tiny) hin.1 hin.2⟩
   | co a b =>
-    exact ⟨.i (IT.new pi cv a (b - tiny) 1 true), by simp [initOne, hc], by simp [Matches, IT.new],
+    exact ⟨.i (IT.new pi cv a (b - tiny) 1 true), by simp [initOne, mkIT, hc, hin.1, hin.2], by simp [Matches, IT.new],
       IT_new_getOriginal pi cv a (b - tiny) hin.1 hin.2⟩
   | oc a b =>
-    exact ⟨.i (IT.new pi cv (a + tiny) b 1 true), by simp [initOne, hc], by simp [Matches, IT.new],
+    exact ⟨.i (IT.new pi cv (a + tiny) b 1 true), by simp [initOne, mkIT, hc, hin.1, hin.2], by simp [Matches, IT.new],
       IT_new_getOriginal pi cv (a + tiny) b hin.1 hin.2⟩
   | gt a =>
     have h' : a + tiny < cv := hin
